@@ -194,7 +194,7 @@ I = ("ident", "inputs")
 # patterns the listener is expected to handle (sound) and patterns that are known defects
 HANDLED = ["dot", "index", "alias", "alias-chain", "iife", "fdecl-direct", "shadow-inputs", "shadow-alias", "nested",
            "computed-on-value", "string-mention", "kill", "cond-expr", "if-stmt", "paren-value", "fexpr-param",
-           "reserved-as-string-index"]
+           "reserved-as-string-index", "numeric-index", "inner-kill"]
 DEFECTS = {
     "var-init-alias": "miss",          # var x = inputs; x.k
     "paren-object": "miss",            # (inputs).k
@@ -206,11 +206,12 @@ DEFECTS = {
     "untaken-kill": "miss",            # x = inputs; if (0) {x = y;} x.k
     "reserved-dot": "miss",            # inputs.if
     "returned-alias": "miss",          # function f(){return inputs;} f().k
-    "computed-index": "crash",         # inputs[kv]
-    "numeric-index": "crash",          # inputs[0]
-    "concat-index": "crash",           # inputs['a' + 'b']
-    "inner-kill": "crash",             # x = inputs; function f(){ x = y; }   (KeyError)
+    "computed-index": "miss",          # inputs[kv]        (AttributeError before fix 254d061)
+    "concat-index": "miss",            # inputs['a' + 'b'] (AttributeError before fix 254d061)
 }
+# patterns that made the listener crash before fix 254d061 (numeric-index, inner-kill are harmless now)
+CRASHED_BEFORE_FIX = {"computed-index": "AttributeError", "numeric-index": "AttributeError", "concat-index": "AttributeError",
+                      "inner-kill": "KeyError"}
 
 
 class Gen:
@@ -255,7 +256,7 @@ class Gen:
     # each pattern returns (expr evaluating to a field value object or a primitive, kind) and appends to self.pre
     def pattern(self, name: str):
         rng = self.rng
-        defect = name in DEFECTS
+        defect = name in DEFECTS or name in ("numeric-index", "inner-kill")
         pool = IDENT_KEYS + STRING_KEYS
         if name in ("reserved-dot",):
             pool = RESERVED_KEYS
